@@ -99,9 +99,42 @@ def load_known():
         return json.load(fh)["findings"]
 
 
+def _guard_rules(mod, ctx):
+    """Fail closed, rule by rule: a rule function (module-level `rNN_x`) that raises because the code no longer has the
+    shape it navigates (a field, an aggregate, a call site is gone) is recorded as a violation `<rule>/SHAPE` naming the
+    function and the exception, and the remaining rules still run.  Infrastructure errors (AnalysisError) propagate."""
+    import functools
+    import re
+    for name, fn in list(vars(mod).items()):
+        m = re.match(r"^r(\d\d)_(\w+)$", name)
+        if not m or not callable(fn) or getattr(fn, "_guarded", False):
+            continue
+        rule = "R%s.%s" % (m.group(1), m.group(2))
+
+        def make(fn, rule, name):
+            @functools.wraps(fn)
+            def wrapped(*a, **k):
+                try:
+                    return fn(*a, **k)
+                except (extract.AnalysisError, KeyboardInterrupt):
+                    raise
+                except Exception as e:  # noqa: BLE001
+                    tb = traceback.extract_tb(e.__traceback__)
+                    last = [f for f in tb if "/rules/" in f.filename] or list(tb)
+                    where = "%s:%d" % (os.path.basename(last[-1].filename), last[-1].lineno)
+                    ctx.fail(rule + "/SHAPE", [name, type(e).__name__],
+                             "rule %s could not navigate the code it checks (%s: %s at %s): the construct it is anchored in was removed or "
+                             "restructured beyond recognition" % (rule, type(e).__name__, e, where), None)
+                    return None
+            wrapped._guarded = True
+            return wrapped
+        setattr(mod, name, make(fn, rule, name))
+
+
 def run_property(prop, tier="quick", seed=0):
     mod = importlib.import_module("rules." + prop)
     ctx = Ctx(prop, tier, seed)
+    _guard_rules(mod, ctx)
     cfgs = [c for c in TIER_CONFIGS[tier] if c in getattr(mod, "CONFIGS", ["K1", "K2", "K3", "K4"])]
     status = 0
     try:
